@@ -792,6 +792,16 @@ def extract_adapters(errors):
         L.append(f"def displayTzReaders : List String := {llist(lstr(u) for u in sorted(users))}")
         dn = src(find_def(t, "__new__", cls="datetime"))
         L.append(f"def datetimeCtorKeepsFold : Bool := {lbool('fold=' in dn or 'arg.fold' in dn)}")
+        # typedlist._pack: an element that is not (yet) of the element type - appended in place - is converted by
+        # `self.__type__(f)` before it is packed (records excepted: the packer packs those)
+        tp = find_def(t, "_pack", cls="typedlist")
+        conv = any(isinstance(c, ast.Call) and isinstance(c.func, ast.Attribute) and c.func.attr == "_pack"
+                   and isinstance(c.func.value, ast.Call) and src(c.func.value.func) == "self.__type__"
+                   for c in ast.walk(tp))
+        guarded = "isinstance(f, self.__type__)" in src(tp)
+        L.append(f"def typedlistPackConvertsRaw : Bool := {lbool(conv and guarded)}")
+        ti = src(find_def(t, "__init__", cls="typedlist"))
+        L.append(f"def typedlistInitConverts : Bool := {lbool('self._convert(values)' in ti)}")
 
     guard(fieldtypes)
 
